@@ -66,6 +66,9 @@ class Dataset:
     def flush(self):
         pass
 
+    def refresh(self):
+        pass
+
     def sym_value(self):
         return self.value
 
@@ -80,12 +83,30 @@ def _copy(v):
     return v
 
 
-class Group:
-    def __init__(self, file, name):
-        self.file = file
-        self.name = name
+class Node:
+    """stored group: children (Node | Dataset) and attributes; shared by all handles of a file"""
+
+    def __init__(self):
         self.children = {}
         self.attrs = Attrs()
+
+
+class Group:
+    """a view of a stored group through one open handle (invalid once that handle is closed)"""
+
+    def __init__(self, file, name, node):
+        self.file = file
+        self.name = name
+        self.node = node
+
+    @property
+    def children(self):
+        return self.node.children
+
+    @property
+    def attrs(self):
+        self._check()
+        return self.node.attrs
 
     def _check(self, write=False):
         if not self.file.is_open:
@@ -94,33 +115,40 @@ class Group:
             raise OSError("file is read-only")
         if write and self.file.fs.fault is not None:
             self.file.fs.fault("write", self.file.path)
+        if write:
+            self.file.fs.log.append(("write", self.file.path))
+
+    def _wrap(self, name, obj):
+        if isinstance(obj, Node):
+            return Group(self.file, posixpath.join(self.name, name), obj)
+        return obj
 
     def _walk(self, path, create=False):
-        parts = [p for p in path.split("/") if p]
-        g = self
+        parts = [p for p in str(path).split("/") if p]
+        n = self.node
         for p in parts[:-1]:
-            if p not in g.children:
+            if p not in n.children:
                 if not create:
                     raise KeyError(f"Unable to open object (component not found: {p})")
-                g.children[p] = Group(g.file, posixpath.join(g.name, p))
-            g = g.children[p]
-            if not isinstance(g, Group):
+                n.children[p] = Node()
+            n = n.children[p]
+            if not isinstance(n, Node):
                 raise KeyError(p)
-        return g, (parts[-1] if parts else "")
+        return n, (parts[-1] if parts else "")
 
     def create_group(self, name, track_order=None):
         self._check(write=True)
-        g, last = self._walk(name, create=True)
-        if last in g.children:
+        n, last = self._walk(name, create=True)
+        if last in n.children:
             raise ValueError(f"Unable to create group (name already exists): {name}")
-        g.children[last] = Group(self.file, posixpath.join(g.name, last))
-        return g.children[last]
+        n.children[last] = Node()
+        return Group(self.file, posixpath.join(self.name, str(name)), n.children[last])
 
     def require_group(self, name):
-        g, last = self._walk(name, create=True)
-        if last not in g.children:
+        n, last = self._walk(name, create=True)
+        if last not in n.children:
             return self.create_group(name)
-        return g.children[last]
+        return self._wrap(last, n.children[last])
 
     def create_dataset(self, name, data=None, **kw):
         self[name] = data
@@ -128,62 +156,65 @@ class Group:
 
     def __setitem__(self, name, value):
         self._check(write=True)
-        g, last = self._walk(str(name), create=True)
-        if last in g.children:
+        n, last = self._walk(str(name), create=True)
+        if last in n.children:
             raise OSError(f"Unable to create link (name already exists): {name}")
         if isinstance(value, (Group, Dataset)):
             raise NotImplementedError("hard links")
-        g.children[last] = Dataset(value, self.file.fs, posixpath.join(g.name, last))
+        n.children[last] = Dataset(value, self.file.fs, posixpath.join(self.name, last))
 
     def __getitem__(self, name):
         self._check()
-        g, last = self._walk(str(name))
+        n, last = self._walk(str(name))
         if last == "":
-            return g
-        if last not in g.children:
+            return self
+        if last not in n.children:
             raise KeyError(f"Unable to open object (object '{last}' doesn't exist)")
-        return g.children[last]
+        return self._wrap(str(name), n.children[last])
 
     def __delitem__(self, name):
         self._check(write=True)
-        g, last = self._walk(str(name))
-        del g.children[last]
+        n, last = self._walk(str(name))
+        del n.children[last]
 
     def __contains__(self, name):
         try:
-            g, last = self._walk(str(name))
+            n, last = self._walk(str(name))
         except KeyError:
             return False
-        return last in g.children
+        return last in n.children
 
     def __iter__(self):
-        return iter(list(self.children))
+        self._check()
+        return iter(list(self.node.children))
 
     def keys(self):
-        return list(self.children)
+        return list(self.node.children)
 
     def items(self):
-        return list(self.children.items())
+        return [(k, self._wrap(k, v)) for k, v in self.node.children.items()]
 
     def values(self):
-        return list(self.children.values())
+        return [self._wrap(k, v) for k, v in self.node.children.items()]
 
     def __len__(self):
-        return len(self.children)
+        return len(self.node.children)
 
     def get(self, name, default=None):
         return self[name] if name in self else default
 
 
 class FakeFile(Group):
-    def __init__(self, fs, path, mode="r", **kw):
+    """one open handle on a stored file tree"""
+
+    def __init__(self, fs, path, mode, root, **kw):
         self.fs = fs
         self.path = path
         self.mode = mode
-        self.is_open = False
+        self.is_open = True
         self.kw = kw
         self.swmr_mode = False
-        Group.__init__(self, self, "/")
+        Group.__init__(self, self, "/", root)
 
     @property
     def filename(self):
@@ -209,6 +240,13 @@ class FakeFile(Group):
 
     def __bool__(self):
         return self.is_open
+
+
+def tree_repr(node):
+    """structural fingerprint of a stored tree (names, attribute keys, dataset shapes)"""
+    if isinstance(node, Dataset):
+        return ("D", node.shape)
+    return ("G", sorted(node.attrs), sorted((k, tree_repr(v)) for k, v in node.children.items()))
 
 
 class FakeH5py:
@@ -238,26 +276,22 @@ class FakeH5py:
             d = posixpath.dirname(path)
             if d and d not in fs.dirs:
                 raise FileNotFoundError(f"Unable to create file (no such directory): {d}")
-            f = FakeFile(fs, path, mode, **kw)
-            fs.files[path] = f
+            fs.files[path] = Node()
             fs.log.append(("create", path))
         elif mode == "w":
-            f = FakeFile(fs, path, mode, **kw)
-            fs.files[path] = f
+            fs.files[path] = Node()
             fs.log.append(("create", path))
         elif mode in ("r", "r+", "a"):
             if path not in fs.files:
                 if mode == "a":
-                    f = FakeFile(fs, path, mode, **kw)
-                    fs.files[path] = f
+                    fs.files[path] = Node()
                     fs.log.append(("create", path))
                 else:
                     raise FileNotFoundError(f"Unable to open file: {path}")
-            f = fs.files[path]
-            f.mode = mode
+            fs.log.append(("open-" + mode, path))
         else:
             raise ValueError(mode)
-        f.is_open = True
+        f = FakeFile(fs, path, mode, fs.files[path], **kw)
         fs.open_handles.append(f)
         return f
 
@@ -330,7 +364,7 @@ class FakeOs:
             self.fs.fault("remove", p)
         if p not in self.fs.files:
             raise FileNotFoundError(p)
-        if self.fs.files[p].is_open:
+        if any(h.path == p and h.is_open for h in self.fs.open_handles):
             # POSIX allows it; recorded so that harnesses can assert handles were closed first
             self.fs.log.append(("remove-open", p))
         del self.fs.files[p]
